@@ -141,6 +141,68 @@ def make_recording_transport(config, reply_body=b"", status=200, reason="OK",
     return t, conns
 
 
+FRAMINGS = ["length", "chunked", "close", "gzip", "length-lowercase"]
+
+
+def wire_reply(body, framing="length", sizes=(), status=200, reason="OK", content_type="application/json-rpc"):
+    """Raw bytes of an HTTP response carrying `body` (bytes) in the given framing:
+    Content-Length, chunked transfer coding (chunk sizes from `sizes`), HTTP/1.0
+    body delimited by the end of the connection, gzip content coding"""
+    import gzip as _gzip
+
+    head = ["HTTP/1.1 %d %s" % (status, reason)]
+    if content_type:
+        head.append("Content-Type: %s" % content_type)
+    if framing == "length":
+        head.append("Content-Length: %d" % len(body))
+        payload = body
+    elif framing == "length-lowercase":
+        head.append("content-length: %d" % len(body))
+        payload = body
+    elif framing == "gzip":
+        payload = _gzip.compress(body)
+        head.append("Content-Encoding: gzip")
+        head.append("Content-Length: %d" % len(payload))
+    elif framing == "chunked":
+        head.append("Transfer-Encoding: chunked")
+        parts, pos, sizes = [], 0, list(sizes)
+        while pos < len(body):
+            n = max(1, sizes.pop(0)) if sizes else len(body) - pos
+            piece = body[pos:pos + n]
+            parts.append(("%x\r\n" % len(piece)).encode("ascii") + piece + b"\r\n")
+            pos += len(piece)
+        parts.append(b"0\r\n\r\n")
+        payload = b"".join(parts)
+    elif framing == "close":
+        head[0] = "HTTP/1.0 %d %s" % (status, reason)
+        payload = body
+    else:
+        raise ValueError(framing)
+    return ("\r\n".join(head) + "\r\n\r\n").encode("latin-1") + payload
+
+
+class WireTransport(J.Transport):
+    """The library's real Transport (request, single_request, parse_response,
+    header emission) over connections that never touch the network: every
+    request is answered with the bytes in `raw_reply`"""
+
+    def __init__(self, config, raw_reply=b""):
+        J.Transport.__init__(self, config)
+        self.raw_reply = raw_reply
+        self.conns = []
+
+    def make_connection(self, host):
+        if self._connection and host == self._connection[0]:
+            conn = self._connection[1]
+            conn.reply_bytes = self.raw_reply
+            return conn
+        chost, self._extra_headers, _ = self.get_host_info(host)
+        conn = RecordingConnection(chost, self.raw_reply)
+        self.conns.append(conn)
+        self._connection = host, conn
+        return conn
+
+
 # ---------------------------------------------------------------------------
 # Chunked delivery of replies to the client and of requests to the handler
 
